@@ -19,7 +19,7 @@ static vec_basic ivec(const J &a)
 {
     vec_basic v;
     for (auto &e : a.a)
-        v.push_back(integer(e.i));
+        v.push_back(integer((long)e.i));
     return v;
 }
 static long long as_small_int(const RCP<const Basic> &b)
@@ -72,7 +72,7 @@ SEV_HANDLER(csr_set)
     CSRMatrix m(rows, cols, uvec(c.at("p")), uvec(c.at("j")), ivec(c.at("x")));
     J steps = J::arr();
     for (auto &s : c.at("steps").a) {
-        m.set((unsigned)s.at("i").i, (unsigned)s.at("c").i, integer(s.at("v").i));
+        m.set((unsigned)s.at("i").i, (unsigned)s.at("c").i, integer((long)s.at("v").i));
         J o = csr_json(m);
         o.set("i", s.at("i").i);
         o.set("c", s.at("c").i);
@@ -108,7 +108,7 @@ SEV_HANDLER(csr_ops)
         vec_basic xx;
         for (unsigned i = rows; i-- > 0;)
             for (unsigned k = cols; k-- > 0;) {
-                long long v = flat.a[i * cols + k].i;
+                long v = flat.a[i * cols + k].i;
                 if (v == 0)
                     continue;
                 if (dup && (v >= 2 || v <= -2)) {
